@@ -115,10 +115,34 @@ def rule_twin(chk):
                 if f is None:
                     chk.violated('compiled-twin', '%sWrapper.%s' % (name, m), node=wc, file=CK, func=name + 'Wrapper', detail='missing')
                     continue
-                src = compact(f)
-                ok = 'xij[0]=xi-xj' in src and 'xij[1]=yi-yj' in src and 'xij[2]=zi-zj' in src and \
-                    'rij:\'double\'=sqrt(xij[0]*xij[0]+xij[1]*xij[1]+xij[2]*xij[2])' in src and \
-                    ('returnself.kern.kernel(xij,rij,h)' in src if m == 'kernel' else 'self.kern.gradient(xij,rij,h,grad)' in src and 'returngrad[0],grad[1],grad[2]' in src.replace('(', '').replace(')', ''))
+                # value numbering of the straight-line body: what reaches the kernel call
+                from verif_static import symb as S
+                ok = False
+                try:
+                    ctx = S.Ctx(seconds=10)
+                    body = [x for x in f.body if not isinstance(x, ast.Return) and not (isinstance(x, ast.Expr) and isinstance(x.value, ast.Call))]
+                    ev = S.Evaluator(ctx, ast.FunctionDef(name=m, args=f.args, body=M.docstring_stripped(body), decorator_list=[]))
+                    ev.run()
+                    kc = [c for c in M.calls(f) if M.call_name(c) == 'self.kern.' + m]
+                    if len(kc) == 1:
+                        a = kc[0].args
+                        vec = compact(a[0])
+                        alias = ev.env.get(vec)           # xij = self.xij: a local name for the persistent buffer
+                        base = vec
+                        comps = [ev.env.get('%s[%d]' % (base, k)) for k in range(3)]
+                        want = [ctx.var(p) - ctx.var(q) for p, q in (('xi', 'xj'), ('yi', 'yj'), ('zi', 'zj'))]
+                        ok = all(c is not None and ctx.prove_zero(c - w)[0] for c, w in zip(comps, want))
+                        r = ev.ev(a[1])
+                        r2 = ctx.fn('sqrt', [ctx.mul(want[0], want[0]) + ctx.mul(want[1], want[1]) + ctx.mul(want[2], want[2])])
+                        ok = ok and ctx.prove_zero(r - r2)[0] and compact(a[2]) == 'h'
+                        rets = [x for x in f.body if isinstance(x, ast.Return)]
+                        if m == 'kernel':
+                            ok = ok and len(rets) == 1 and rets[0].value is kc[0]
+                        else:
+                            g = compact(a[3]) if len(a) > 3 else None
+                            ok = ok and len(rets) == 1 and compact(rets[0].value).replace('(', '').replace(')', '') == '%s[0],%s[1],%s[2]' % (g, g, g) and kc[0].lineno < rets[0].lineno
+                except (S.Unsupported, S.Budget):
+                    ok = False
                 ok = ok and not any(isinstance(x, (ast.If, ast.For, ast.While, ast.IfExp)) for x in ast.walk(f))
                 chk.decide(ok, 'compiled-twin', '%sWrapper.%s' % (name, m), node=f, file=CK, func='%sWrapper.%s' % (name, m),
                            detail_bad='wrapper does not unconditionally pass xij = x_i - x_j, rij = |xij| and h to the kernel and return what it computed '
